@@ -18,11 +18,14 @@ def oracle(ctx):
     sz = 40 if ctx["tier"] == "quick" else 3 * 40
     return cm.merge_results(cm.run_cases(fw.c02_case, ctx["seed"], ID, n, {"size": sz}),
                             cm.run_cases(fa.case_c02_hexital, ctx["seed"], ID + "hx", n // 2, {"size": sz}),
+                            cm.run_cases(fw.c02_shared_case, ctx["seed"], ID + "sh", n // 4, {"size": sz}),
                             # pattern / movement wrappers on candles with exact ties and threshold-sitting bodies: batch column = live column
                             cm.run_cases(oa.case_c16_wrapped, ctx["seed"], ID + "w", n, {"size": 40, "prop": ID}))
 
 
 def replay(w):
+    if w.get("scenario", {}).get("check") == "c02.shared":
+        return fw.c02_shared_replay(w)
     if w.get("scenario", {}).get("check") == "c02.hexital":
         return fa.replay_c02_hexital(w)
     if w.get("scenario", {}).get("mode") in ("amorph", "hexital"):
